@@ -303,6 +303,7 @@ func main() {
 	nObl, nDis := 0, 0
 	bySolver := map[string]int{}
 	nBoundedOK := 0
+	nUnconfirmed := 0
 	boundedNotes := map[string]bool{}
 	var totalMs int64
 	var samples []map[string]interface{}
@@ -323,6 +324,10 @@ func main() {
 		}
 		if o.Retried {
 			entry["retried"] = true
+		}
+		if o.Unconfirmed {
+			entry["second_solver_confirmed"] = false
+			nUnconfirmed++
 		}
 		if o.Pos.IsValid() {
 			entry["pos"] = fmt.Sprintf("%s:%d", strings.TrimPrefix(o.Pos.Filename, *repo+"/"), o.Pos.Line)
@@ -432,6 +437,7 @@ func main() {
 		"functions_excluded_from_sweep": excluded,
 		"bounded":                  boundedList(cfg.Bounded, boundedNotes),
 		"bounded_obligations_passed_not_counted_as_proved": nBoundedOK,
+		"proved_by_one_solver_only": nUnconfirmed,
 		"explanation":              cfg.Explanation,
 		"obligation_list":          oblList,
 		"exhaustive":               false,
